@@ -496,6 +496,72 @@ fn tile_scenario(dir: &Path, kind: &str, name: &str, coords: Vec<Vec<(u8, u32, u
 	Scenario { name: name.to_string(), threads: coords.len(), bound, make: Box::new(make), expected, target: path, sample: json!({"scenario": name, "container": kind, "lookups_per_thread": coords}) }
 }
 
+/// thread 0 streams a box of the container, the other threads issue lookups (tile bytes of the first chunk, others)
+fn stream_scenario(dir: &Path, kind: &str, name: &str, bbox: (u8, u32, u32, u32, u32), coords: Vec<Vec<(u8, u32, u32)>>, bound: Option<usize>) -> Scenario {
+	let base = tile_scenario(dir, kind, name, coords.clone(), bound);
+	let path = base.target.clone();
+	let open = {
+		let path = path.clone();
+		let kind = kind.to_string();
+		move || -> Arc<Box<dyn TilesReaderTrait>> {
+			let rt = tokio::runtime::Builder::new_current_thread().build().unwrap();
+			Arc::new(match kind.as_str() {
+				"versatiles" => rt.block_on(VersaTilesReader::open_path(&path)).unwrap().boxed(),
+				"pmtiles" | "pmleaf" => rt.block_on(PMTilesReader::open_path(&path)).unwrap().boxed(),
+				_ => TarTilesReader::open_path(&path).unwrap().boxed(),
+			})
+		}
+	};
+	let stream_obs = |items: Vec<(TileCoord3, versatiles_core::types::Blob)>| -> Vec<String> {
+		let mut v: Vec<String> = items.iter().map(|(c, b)| format!("{}/{}/{} {}", c.z, c.x, c.y, hexs(b.as_slice()))).collect();
+		v.sort();
+		v
+	};
+	let tb = versatiles_core::types::TileBBox::new(bbox.0, bbox.1, bbox.2, bbox.3, bbox.4).unwrap();
+	let alone = {
+		let reader = open();
+		let rt = tokio::runtime::Builder::new_current_thread().build().unwrap();
+		stream_obs(rt.block_on(async { reader.get_bbox_tile_stream(tb.clone()).await.collect().await }))
+	};
+	let mut expected = vec![alone];
+	expected.extend(base.expected.iter().cloned());
+	let coords2 = coords.clone();
+	let make = move || -> Vec<Body> {
+		let reader = open();
+		let mut bodies: Vec<Body> = vec![];
+		{
+			let reader = reader.clone();
+			let tb = tb.clone();
+			bodies.push(Box::new(move |id: usize| {
+				let r = std::panic::catch_unwind(std::panic::AssertUnwindSafe(|| block_on_sched(id, async { reader.get_bbox_tile_stream(tb.clone()).await.collect().await })));
+				match r {
+					Ok(items) => {
+						let mut v: Vec<String> = items.iter().map(|(c, b)| format!("{}/{}/{} {}", c.z, c.x, c.y, hexs(b.as_slice()))).collect();
+						v.sort();
+						v
+					}
+					Err(_) => vec!["stream panicked".to_string()],
+				}
+			}) as Body);
+		}
+		for cs in &coords2 {
+			let reader = reader.clone();
+			let cs = cs.clone();
+			bodies.push(Box::new(move |id: usize| {
+				cs.iter()
+					.map(|(z, x, y)| match block_on_sched(id, reader.get_tile_data(&TileCoord3 { x: *x, y: *y, z: *z })) {
+						Ok(Some(b)) => format!("ok {}", hexs(b.as_slice())),
+						Ok(None) => "none".to_string(),
+						Err(e) => format!("err {e}"),
+					})
+					.collect()
+			}) as Body);
+		}
+		bodies
+	};
+	Scenario { name: name.to_string(), threads: coords.len() + 1, bound, make: Box::new(make), expected, target: path, sample: json!({"scenario": name, "container": kind, "stream_box": [bbox.0, bbox.1, bbox.2, bbox.3, bbox.4], "lookups_per_thread": coords}) }
+}
+
 fn scenarios(dir: &Path, tier: Tier) -> Vec<Scenario> {
 	let mut v = vec![];
 	// (a) raw byte-range reads: disjoint, overlapping, identical; one or two calls per thread
@@ -521,7 +587,11 @@ fn scenarios(dir: &Path, tier: Tier) -> Vec<Scenario> {
 		v.push(tile_scenario(dir, kind, &format!("{kind} 2 threads different blocks"), vec![vec![(9, 255, 5)], vec![(9, 511, 511)]], None));
 		v.push(tile_scenario(dir, kind, &format!("{kind} 2 threads x 2 lookups incl. missing"), vec![vec![(9, 256, 5), (9, 300, 5)], vec![(0, 0, 0), (9, 256, 5)]], if kind == "versatiles" { Some(3) } else { None }));
 		v.push(tile_scenario(dir, kind, &format!("{kind} 3 threads"), vec![vec![(9, 256, 5)], vec![(3, 1, 2)], vec![(9, 255, 5)]], Some(2)));
+		// a box stream in flight together with lookups of tiles the stream reads
+		v.push(stream_scenario(dir, kind, &format!("{kind} stream of a block + lookup of its first tile"), (9, 256, 0, 511, 255), vec![vec![(9, 256, 5)]], None));
+		v.push(stream_scenario(dir, kind, &format!("{kind} stream of a level + two lookups"), (9, 0, 0, 511, 511), vec![vec![(9, 255, 5), (9, 256, 6)]], Some(3)));
 		if tier == Tier::Thorough {
+			v.push(stream_scenario(dir, kind, &format!("{kind} stream + 2 lookup threads"), (9, 0, 0, 511, 511), vec![vec![(9, 256, 5)], vec![(9, 511, 511)]], Some(2)));
 			v.push(tile_scenario(dir, kind, &format!("{kind} 3 threads x 2 lookups"), vec![vec![(9, 256, 5), (0, 0, 0)], vec![(3, 1, 2), (9, 256, 6)], vec![(9, 255, 5), (9, 256, 5)]], Some(2)));
 			v.push(tile_scenario(dir, kind, &format!("{kind} 3 threads bound 3"), vec![vec![(9, 256, 5)], vec![(9, 256, 6)], vec![(9, 511, 511)]], Some(3)));
 			v.push(tile_scenario(dir, kind, &format!("{kind} 4 threads"), vec![vec![(9, 256, 5)], vec![(3, 1, 2)], vec![(9, 255, 5)], vec![(9, 256, 6)]], Some(2)));
@@ -603,9 +673,18 @@ fn free_running_tile_sample(dir: &Path, kind: &str, big: bool) -> (u64, u64, Opt
 	let total = Arc::new(AtomicU64::new(0));
 	let first: Arc<Mutex<Option<String>>> = Arc::new(Mutex::new(None));
 	let mut hs = vec![];
-	for t in 0..8usize {
-		let (reader, mism, total, first, coords) = (reader.clone(), mism.clone(), total.clone(), first.clone(), coords.clone());
+	let nthreads = if big { 16usize } else { 8 };
+	let finished = Arc::new(AtomicU64::new(0));
+	for t in 0..nthreads {
+		let (reader, mism, total, first, coords, finished) = (reader.clone(), mism.clone(), total.clone(), first.clone(), coords.clone(), finished.clone());
 		hs.push(std::thread::spawn(move || {
+			struct Done(Arc<AtomicU64>);
+			impl Drop for Done {
+				fn drop(&mut self) {
+					self.0.fetch_add(1, Ordering::SeqCst);
+				}
+			}
+			let _done = Done(finished);
 			let rt = tokio::runtime::Builder::new_current_thread().build().unwrap();
 			for i in 0..(if big { 1500usize } else { 300 }) {
 				let (z, x, y, len) = coords[(t * 53 + i * (2 * t + 1)) % coords.len()];
@@ -622,6 +701,16 @@ fn free_running_tile_sample(dir: &Path, kind: &str, big: bool) -> (u64, u64, Opt
 				total.fetch_add(1, Ordering::Relaxed);
 			}
 		}));
+	}
+	// watchdog: lookups that never return (lost wake-up, lock-order inversion) must not hang the check
+	let t0 = std::time::Instant::now();
+	while finished.load(Ordering::SeqCst) < nthreads as u64 && t0.elapsed() < std::time::Duration::from_secs(90) {
+		std::thread::sleep(std::time::Duration::from_millis(20));
+	}
+	if finished.load(Ordering::SeqCst) < nthreads as u64 {
+		let done = finished.load(Ordering::SeqCst);
+		// the stuck threads are left behind; the process exits at the end of the run
+		return (total.load(Ordering::Relaxed), mism.load(Ordering::Relaxed).max(1), Some(format!("{} of {nthreads} caller threads did not finish their lookups within 90 s ({} lookups answered): callers block each other forever", nthreads as u64 - done, total.load(Ordering::Relaxed))));
 	}
 	for h in hs {
 		let _ = h.join();
